@@ -92,20 +92,13 @@ def parseEvent (s : String) : Option Event :=
 
 def b2s (b : Bool) : String := if b then "1" else "0"
 
-/-- Sequence keys of a scenario: pts, qts and every tracked channel. -/
-def seqKeys (chans : List (Nat × Int)) : List SeqKey := 0 :: 1 :: chans.map (fun c => 2 + c.1)
-
-def initOf (p q : Int) (chans : List (Nat × Int)) (k : SeqKey) : Int :=
-  if k = 0 then p else if k = 1 then q else ((chans.find? (·.1 == k - 2)).map (·.2)).getD 0
-
 /-- The checks evaluated on a model run. `p0 q0 c0` = the log's origin (tiling); `fp fq fc` = the
 persisted state the run started from. -/
 def checksOf (O : Orders) (log : List Entry) (p0 q0 : Int) (c0 : List (Nat × Int))
     (fp fq : Int) (fc : List (Nat × Int)) (m : Mgr) : String :=
   let keys := seqKeys c0
   let mk := mkOf log
-  let wf := keys.all fun k =>
-    tiled (initOf p0 q0 c0 k) (seqLog log k) &&
+  let wf := scnOK log keys (initOf p0 q0 c0) && keys.all fun k =>
     wfRun (applyCfgOf O mk k) (seqLog log k) { state := initOf fp fq fc k } (opsOf m.ops k)
   let sf := keys.all fun k => safe (seqLog log k) mk (initOf fp fq fc k) [] false (projSeq log k m.trace)
   let cp := keys.all fun k => complete (seqLog log k) mk (initOf fp fq fc k) (projSeq log k m.trace)
